@@ -46,8 +46,8 @@ def space(tier):
     units = []
     for place, p in programs(tier):
         two = (place == "alone") or not quick
-        units.append(({"program": p, "cfg": {"env_kinds": ["crash"]}},
-                      {"crash": 2 if two else 1, "total": 2 if two else 1}, cap))
+        n_crash = 3 if (place == "alone" and not quick) else (2 if two else 1)
+        units.append(({"program": p, "cfg": {"env_kinds": ["crash"]}}, {"crash": n_crash, "total": n_crash}, cap))
         if place == "resume":
             # ... and the service is slow to flip the retry from PENDING to READY (the refreshed state still says PENDING
             # with a timestamp in the past)
@@ -68,6 +68,6 @@ simcheck.install(globals(), "C04", [monitors.judge_c04], space,
                  "one at-most-once step x placements {alone, after a step, in a child context, in a parallel branch} "
                  "x retry strategies {none, table[1], table[1,2], table filtered to Boom (StepInterruptedError not "
                  "retried), default preset} x behaviours {ok, fail once, fail twice, always fail}; every crash point "
-                 "(pairs of crash points for the stand-alone placement; thorough: pairs everywhere); policies rtb/low/high; every pagination mode of the replayed history (stand-alone placement); "
+                 "(pairs of crash points for the stand-alone placement; thorough: pairs everywhere, triples for the stand-alone placement); policies rtb/low/high; every pagination mode of the replayed history (stand-alone placement); "
                  "three programs whose branch is resumed in-process by its retry timer next to a running sibling, also with a "
                  "backend that flips PENDING to READY 0.3 / 1.5 s late")
